@@ -6,6 +6,7 @@ import (
 	"net"
 	"reflect"
 	"sync"
+	"testing/synctest"
 	"time"
 	"unsafe"
 
@@ -359,7 +360,15 @@ func (w *World) Shutdown() {
 		w.closed = true
 		_ = w.srv.Close()
 	}
+	// scripted slow callbacks are harness sleeps: let them finish before the bubble ends
+	for i := 0; i < 4000 && w.callbacksActive() > 0; i++ {
+		time.Sleep(time.Second)
+	}
 	w.net.CloseAll()
+	synctest.Wait()
+	for i := 0; i < 4000 && w.callbacksActive() > 0; i++ {
+		time.Sleep(time.Second)
+	}
 }
 
 func (c *Client) nextTx() [12]byte {
